@@ -129,6 +129,9 @@ func TestCheck(t *testing.T) {
 		o.PNamed = 0.2
 		o.PDupAlias = 0.25
 		o.MaxDepth = 3 + r.Intn(3)
+		if r.Intn(3) == 0 {
+			o = gen.MergeHeavy(o)
+		}
 		if os.Getenv("VERIF_SMALL") != "" {
 			o.MaxDepth, o.MaxWidth, o.PVar = 2, 3, 0.05
 		}
